@@ -90,6 +90,7 @@ MonGs56Add(e) ==
       x  == G!NormalAdd(r0, e.sid, e.n)
       o  == e.obs
   IN Chk("C18.add", e, {
+       <<o.buildErr = "", "the SID block of a canonical set was rejected">>,
        <<o.text = Set56Text(x), "AddGTID result is not the union in canonical form">>,
        <<o.text = Set56Text(G!AddOp(r0, e.sid, e.n)), "AddGTID result differs from the operational model">>,
        <<o.recvSame /\ o.recvText = Set56Text(r0), "AddGTID altered the set it was added to">>,
@@ -137,6 +138,7 @@ MonGtidMariaEvent(e) ==
 MonGs56Codec(e) ==
   LET o == e.obs  text == Set56TextS(e.rep) IN
   Chk("C19.set56", e, {
+    <<o.buildErr = "", "the SID block of a canonical set was rejected: " \o o.buildErr>>,
     <<\A i \in 1..Len(e.rep) : \A j \in 1..Len(e.rep[i].ivs) : IvAnnotOK(e.rep[i].ivs[j]), "HARNESS: inconsistent interval annotations">>,
     <<o.text = text, "String() of a set is not the canonical text">>,
     <<~o.parseErr /\ o.text2 = text /\ o.eq, "parsing the printed set does not return an equal set">>,
